@@ -60,6 +60,7 @@ type FuncContract struct {
 	ParamNames []string   // interface method parameter names
 	Verify     []string   // properties under which support obligations are checked explicitly
 	DirectRead bool       // may call Read on the user's source directly (accounts for short reads)
+	Allocates  map[string]bool // tracked types this function may allocate objects of
 }
 
 type Pred struct {
@@ -83,6 +84,7 @@ type DB struct {
 	GGlobal map[string]string      // name -> sort
 	SpecFns map[string]*SpecFn
 	Axioms  []Clause
+	Tracked []string // type names whose objects are tracked by dynamic type (rtype)
 	Files   []string
 	patKeys []string
 }
@@ -91,8 +93,10 @@ type SpecFn struct {
 	Name   string
 	Params []string // sorts
 	Ret    string
+	PTypes []types.Type // Go types of parameters declared by Go type name
 	PNames []string // recfn: parameter names
 	Body   *Expr    // recfn: defining equation, unfolded once per application term
+	Depth  int      // recfn[n]: unfolding depth (default 1)
 }
 
 func newDB() *DB {
@@ -117,7 +121,15 @@ func ghostSort(s string) string {
 		return "Iface"
 	}
 	if strings.HasPrefix(s, "array<") && strings.HasSuffix(s, ">") {
-		return "(Array Int " + ghostSort(s[6:len(s)-1]) + ")"
+		inner := ghostSort(s[6 : len(s)-1])
+		if strings.HasPrefix(inner, "go:") {
+			return "goarr:" + inner[3:]
+		}
+		return "(Array Int " + inner + ")"
+	}
+	if strings.Contains(s, ".") && !strings.HasPrefix(s, "(") {
+		// a Go type name (pkg.T): resolved to its sort at first use
+		return "go:" + s
 	}
 	return s
 }
@@ -136,7 +148,7 @@ func (db *DB) loadContractFile(path, pkgPath string) error {
 	keywords := map[string]bool{"func": true, "loop": true, "mode": true, "requires": true, "ensures": true, "invariant": true,
 		"modifies": true, "safety": true, "trusted": true, "ghost-entry": true, "pred": true, "ghost": true, "template": true,
 		"end": true, "iface": true, "functype": true, "decreases": true, "inline": true, "specfn": true, "axiom": true,
-		"split": true, "verify": true, "direct-read": true, "ghost-exit": true, "recfn": true, "free-ensures": true, "free-requires": true, "lemma": true, "pure": true, "free-invariant": true}
+		"split": true, "verify": true, "direct-read": true, "ghost-exit": true, "recfn": true, "free-ensures": true, "free-requires": true, "lemma": true, "pure": true, "free-invariant": true, "tracked": true, "allocates": true}
 	for _, l := range strings.Split(string(raw), "\n") {
 		t := strings.TrimSpace(l)
 		if isGo {
@@ -275,6 +287,13 @@ func (db *DB) loadContractFile(path, pkgPath string) error {
 			cur.Inline = true
 		case "pure":
 			cur.Pure = true
+		case "tracked":
+			db.Tracked = append(db.Tracked, strings.Trim(rest, "\" "))
+		case "allocates":
+			if cur.Allocates == nil {
+				cur.Allocates = map[string]bool{}
+			}
+			cur.Allocates[strings.Trim(rest, "\" ")] = true
 		case "split":
 			cur.Split = append(cur.Split, rest)
 		case "verify":
@@ -420,6 +439,10 @@ func (db *DB) loadContractFile(path, pkgPath string) error {
 				return err
 			}
 			sf.Body = body
+			sf.Depth = 1
+			if len(tags) == 1 {
+				fmt.Sscanf(tags[0], "%d", &sf.Depth)
+			}
 			db.SpecFns[sf.Name] = sf
 		case "axiom":
 			e, err := parse(rest)
